@@ -303,6 +303,12 @@ def run(tier):
                 if not ok:
                     ck.finding("R5a.explicit-panics", "R5a.explicit-panics/%s/%s" % (f.parent, d.split("::")[-1]), F.short_span(t[6]),
                                "`%s` can reach `%s`: a script-triggerable panic aborts the embedding process" % (f.parent, d))
+    # R5c index expressions (zero-expected; shared with C05; fixture controls)
+    import indexpanic
+    indexpanic.rule(fx, ck, "R5c.index-panics", lambda g: not g.file.startswith(("src/ffi", "src/bin")), "a script-chosen index must not abort the host")
+    cf = indexpanic.control(F.load_fixture())
+    if cf:
+        ck.closed_fail.append(cf)
     ck.rule("R5b.division", "integer divisors are non-zero constants or range-guarded", floor=40)
     narith = 0
     for f in fx.fns.values():
